@@ -5,8 +5,8 @@ Two kinds of cases.
 * "sweep": the real functions are run with max_iter = k (k = 1..3); when the non-convergence warning
   was emitted exactly k sweeps were executed, and the returned (T, pi) must equal, to 1e-9, what the
   translated update formulas (Gen/PrinzGen.v, one for builders.py and one for libmsm.pyx) produce when
-  plugged into the loop skeleton of Model/Prinz.v and run over exact rationals (square roots to
-  2^-64).  Matrices with a zero row are the rejected stream (AssertionError <-> None).
+  plugged into the loop skeleton of Model/Prinz.v and run over rationals (quotients and roots to
+  2^-80).  Matrices with a zero row are the rejected stream (AssertionError <-> None).
 * "cert": builders.mle (dense and sparse containers), _prinz_mle_py and _prinz_mle (compiled) run to
   convergence; the returned T, pi are handed to Coq as exact rationals and the certificate checker
   of Model/Prinz.v evaluates stochasticity, detailed balance (1e-9) and the Prinz self-consistency
@@ -35,12 +35,12 @@ RULE = ("strongly connected count matrices, n = 1..7 (sweep cases n <= 5): rando
         "non-trivial := n >= 3, not symmetric, a model was returned and at least one sweep changed X")
 TRUSTED = ["translator/tr_prinz.py (array-element renaming, loop-shape recognition; logl accumulation and the convergence test are recognised and left out)",
            "modelled not verified: IEEE rounding (comparison at 1e-9 / 1e-6), numpy sum/division broadcasting, scipy sparse <-> dense conversion, the stopping rule on the pseudo log-likelihood",
-           "the Q instance of the model uses floor(sqrt(x) 2^64)/2^64 for the square root"]
+           "the executable Q instance of the model rounds quotients and square roots down to multiples of 2^-80 (sums, differences, products exact)"]
 ASSUMPTIONS = ["count matrices are non-negative with a strongly connected transition graph (after ergodic trimming); "
                "theorems are about exact real arithmetic; convergence of the iteration and global optimality are NOT proved "
                "(observed per input: likelihood >= transpose estimate and >= sampled reversible competitors)"]
-SHARD = 40
-P = 64
+SHARD = 20
+P = 80
 TOL_SWEEP = F(1, 10 ** 9)
 TOL1 = F(1, 10 ** 9)
 TOL2 = F(1, 10 ** 6)
@@ -159,7 +159,7 @@ def generate(rng, tier):
         cases.append({"kind": "cert", "C": _enc([[F(x) for x in r] for r in M]), "container": "ndarray", "shape": "fixed",
                       "style": "int", "seed": 1})
         cases.append({"kind": "sweep", "C": _enc([[F(x) for x in r] for r in M]), "k": 2, "shape": "fixed", "style": "int"})
-    n_sweep = 150 if quick else 1500
+    n_sweep = 300 if quick else 3000
     for t in range(n_sweep):
         shape = SHAPES[t % len(SHAPES)] if rng.random() < 0.9 else "two-empty-diag"
         style = rng.choice(STYLES)
@@ -170,7 +170,7 @@ def generate(rng, tier):
             M[i] = [F(0)] * n
             shape = "zero-row"
         cases.append({"kind": "sweep", "C": _enc(M), "k": rng.choice([1, 1, 2, 3]), "shape": shape, "style": style})
-    n_cert = 130 if quick else 1500
+    n_cert = 260 if quick else 2600
     for t in range(n_cert):
         shape = SHAPES[t % len(SHAPES)] if rng.random() < 0.93 else "two-empty-diag"
         style = rng.choice(STYLES)
